@@ -69,6 +69,17 @@ func Send(from, to sdk.AccAddress, denom, trad, ret string) *explore.Action {
 		&basetypes.MsgSend{Sender: from.String(), Recipient: to.String(), Credits: []*basetypes.MsgSend_SendCredits{c}})
 }
 
+// SendSpelled is Send with the recipient given as a string (another valid spelling of an address, for
+// example all upper-case bech32, denotes the same account).
+func SendSpelled(from sdk.AccAddress, to, tag, denom, trad, ret string) *explore.Action {
+	c := &basetypes.MsgSend_SendCredits{BatchDenom: denom, TradableAmount: trad, RetiredAmount: ret}
+	if ret != "" && ret != "0" {
+		c.RetirementJurisdiction = "US-WA"
+	}
+	return Msg(fmt.Sprintf("Send(%s->%s,%s,t=%s,r=%s)", n(from), tag, denom, trad, ret),
+		&basetypes.MsgSend{Sender: from.String(), Recipient: to, Credits: []*basetypes.MsgSend_SendCredits{c}})
+}
+
 // SendAll sends the sender's whole tradable balance plus delta.
 func SendAll(from, to sdk.AccAddress, denom string, delta string, retired bool) E {
 	name := fmt.Sprintf("Send(%s->%s,%s,all+%s,retired=%v)", n(from), n(to), denom, delta, retired)
